@@ -124,6 +124,7 @@ BLOBINFO = {
     'm100': {'len': 100, 'sig': False, 'mbr': 'short'}, 'x5000': {'len': 5000, 'sig': False, 'mbr': 'nosig'},
     'f12': {'len': 1228800, 'sig': False, 'mbr': 'nosig'}, 'f144': {'len': 1474560, 'sig': False, 'mbr': 'nosig'},
     'f288': {'len': 2949120, 'sig': False, 'mbr': 'nosig'},
+    'b34m': {'len': 35651584, 'sig': False, 'mbr': 'nosig'}, 'b35m': {'len': 35672064, 'sig': False, 'mbr': 'nosig'},
     'mbrok': {'len': 1024, 'sig': False, 'mbr': 'ok'}, 'mbrnosig': {'len': 1024, 'sig': False, 'mbr': 'nosig'},
     'mbrnopart': {'len': 1024, 'sig': False, 'mbr': 'nopart'}, 'mbrtwo': {'len': 1024, 'sig': False, 'mbr': 'two'},
     'mbrshort': {'len': 100, 'sig': False, 'mbr': 'short'},
